@@ -16,3 +16,23 @@ Proof.
   induction s as [|b s IH]; [reflexivity|]. cbn [flat_map]. rewrite IH. f_equal.
 Qed.
 Print Assumptions C03_mtree_quote_source_is_the_model.
+
+(* ---- MtreeEntry.WriteTo: the three line formats, translated from arch/arch.go on every run (Gen/MtreeLine.v) ---- *)
+From NfpmV Require Import Model.Content Gen.MtreeLine.
+
+Lemma src_quote_eq s : src_mtreeQuote s = mquote s.
+Proof. exact (proj2 C03_mtree_quote_source_is_the_model s). Qed.
+
+(* for every entry: the line the SOURCE's format strings compose - "./" and the escaped name, time=<seconds>.0, mode in
+   octal, then type=dir | type=link link=<escaped target> | size, type=file and the two digests - is the model's mline,
+   the line C03_mtree_roundtrip and C03_mtree_lists_what_is_shipped are stated over (digests: the model's field is the
+   hex text %x prints) *)
+Theorem C03_mtree_line_source_is_the_model :
+  src_mtree_line_translated = true /\ forall e, src_mtree_line e = mline e.
+Proof.
+  split; [reflexivity|]. intros e. unfold src_mtree_line, mline, mwords. rewrite (src_quote_eq (me_path e)), (src_quote_eq (me_link e)).
+  generalize (mquote (me_path e)) (mquote (me_link e)) (decN (me_time e)) (octN (me_mode e)) (decN (me_size e)) (me_md5 e) (me_sha256 e).
+  intros q ql t m sz d5 d256.
+  destruct (me_kind e); unfold kw, B; cbn; repeat (rewrite <- app_assoc; cbn); reflexivity.
+Qed.
+Print Assumptions C03_mtree_line_source_is_the_model.
